@@ -434,8 +434,8 @@ theorem scope_irrelevant (O : Oracles) (future : Bool) (fs : FieldSp) :
     ∧ elabFieldAt .nested O tm future fs = elabFieldAt .module O tm future fs := by
   simp [elabFieldAt]
 
-/-- Inside the supported region a string annotation (future import, or quoted and short) in any non-enclosing
-    scope elaborates like the evaluated annotation at module level. -/
+/-- Inside the supported region a string annotation (future import, quoted, or both; of any length) in any
+    non-enclosing scope elaborates like the evaluated annotation at module level. -/
 theorem string_annotation_equiv (O : Oracles) (sc : Scope) (future : Bool) (fs : FieldSp)
     (h : fieldSupportedAt O tm sc future fs = true) :
     elabFieldAt sc O tm future fs = elabField O tm false { fs with quoted := false } := by
@@ -446,22 +446,24 @@ theorem string_annotation_equiv (O : Oracles) (sc : Scope) (future : Bool) (fs :
 /-- the class `a: "Integer"` in a module with the future import, and `a: "<54 characters>"` without it -/
 def quotedInt : FieldSp := { name := "a", mode := .ann, ty := fInt, quoted := true }
 
-/-- finding `field-dropped:quoted-under-future-import` — `a: "Integer"` declares a field, but in a module with
-    `from __future__ import annotations` the stored text is that of a string literal, which evaluates to a `str`
-    again: no field is declared. -/
-theorem counterexample_quoted_future :
+/-- former finding `field-dropped:quoted-under-future-import` (fixed in typedpy b6495fe) — `a: "Integer"` declares the
+    same field with and without `from __future__ import annotations` (the stored text of the string literal is
+    evaluated twice). -/
+theorem fixed_quoted_future :
     elabFieldAt .module noRe tm false quotedInt = .ok (.field (.integer {}) true none)
-    ∧ elabFieldAt .module noRe tm true quotedInt = .ok .dropped
-    ∧ elabFieldAt .module noRe tm true (annF fInt) = .ok (.field (.integer {}) true none) :=
-  ⟨rfl, rfl, rfl⟩
+    ∧ elabFieldAt .module noRe tm true quotedInt = .ok (.field (.integer {}) true none)
+    ∧ elabFieldAt .module noRe tm true (annF fInt) = .ok (.field (.integer {}) true none)
+    ∧ fieldSupportedAt noRe tm .nested true quotedInt = true :=
+  ⟨rfl, rfl, rfl, rfl⟩
 
-/-- finding `field-dropped:quoted-annotation-50` — a quoted annotation of 50 or more characters (no future
-    import) is never evaluated and declares nothing. -/
-theorem counterexample_quoted_50 :
-    elabFieldAt .module noRe tm false { quotedInt with ty := longSp } = .ok .dropped
+/-- former finding `field-dropped:quoted-annotation-50` (fixed in typedpy b6495fe) — a quoted annotation of 50 or more
+    characters (no future import) is evaluated like any other and declares its field. -/
+theorem fixed_quoted_50 :
+    annLenField { quotedInt with ty := longSp } = 54
+    ∧ elabFieldAt .module noRe tm false { quotedInt with ty := longSp } = elabFieldAt .module noRe tm true (annF longSp)
     ∧ elabFieldAt .module noRe tm false (annF longSp) = elabFieldAt .module noRe tm true (annF longSp)
     ∧ elabFieldAt .module noRe tm true (annF longSp) ≠ .ok .dropped := by
-  refine ⟨rfl, rfl, ?_⟩
+  refine ⟨rfl, rfl, rfl, ?_⟩
   intro h
   cases h
 
@@ -499,9 +501,10 @@ theorem tuple_single_equiv :
 
 /-! ### typing's own rewriting of unions: flattening (and, below, de-duplication) -/
 
-/-- Directly nested `Union[…]` / `Optional[…]` (which `typing` flattens - documented: "unions of unions are flattened"):
-    a tree of them over supported, pairwise distinct leaves elaborates to the AnyOf of the FLATTENED documented
-    alternatives (`Spec/Meaning.flatAlts`), through the model's `mkUnion` (= typing's flatten + de-duplicate).
+/-- Directly nested `Union[…]` / `Optional[…]` / PEP 604 `|` between non-field operands - plain types, `None`, Field
+    classes AND typing objects (`List[int] | None`, `int | Optional[str]`) - which `typing` / Python flatten (documented:
+    "unions of unions are flattened"): a tree of them over supported, pairwise distinct leaves (operand kinds as Python's
+    `|` requires: `Spec/Meaning.pipeKind`) elaborates to the AnyOf of the FLATTENED documented alternatives (`Spec/Meaning.flatAlts`), through the model's `mkUnion` (= typing's flatten + de-duplicate).
     Structural induction over the tree (`Lemmas/ElabFlat`): no depth bound. -/
 theorem elaborate_flatten (s : Sp) (ht : isUnionTree s = true) (hl : leavesOk tm s = true)
     (hd : allDistinct (flatObjs tm s) = true) :
@@ -523,15 +526,32 @@ theorem elabField_flatten (O : Oracles) (future : Bool) (name : String) (inOpt :
     (ht : isUnionTree s = true) (hl : leavesOk tm s = true) (hd : allDistinct (flatObjs tm s) = true) :
     elabField O tm future { name := name, mode := .ann, ty := s, inOptional := inOpt }
       = .ok (.field (.anyOf (flatAlts s)) (!((flatAlts s).any isNoneF || inOpt)) none) := by
-  simp [elabField, evTop, ev_flatten s ht hl hd, annField, isFieldObj, isSclsObj, gtli_flatten s hl hd, afterGtli,
-    finishField, hasNoneOpt]
+  simp [elabField, evTop, ev_flatten s ht hl hd, annField, isFieldObj_treeObj, isSclsObj_treeObj, gtli_flatten s hl hd,
+    afterGtli, finishField, hasNoneOpt]
 
-/-- non-vacuity: `Union[Union[int, None], str]`, `Union[int, Union[None, str]]` and `Union[Optional[int], str]`
-    are union trees over distinct supported leaves with the same flattened alternatives [Integer, None, String]. -/
+/-- non-vacuity: `Union[Union[int, None], str]`, `Union[int, Union[None, str]]`, `Union[Optional[int], str]`, the PEP 604
+    chain `int | None | str`, `int | (None | str)` and the mixed `Optional[int] | str` / `List[int] | None` (a `|` with a
+    typing object) are union trees over distinct supported leaves; the first six have the same flattened alternatives
+    [Integer, None, String]. -/
 theorem flatten_example :
     let s₁ : Sp := .union (.union (.builtin .int) .noneLit) (.builtin .str)
     let s₂ : Sp := .union (.builtin .int) (.union .noneLit fStr)
     let s₃ : Sp := .union (.optional (.finst .int)) (.builtin .str)
+    let s₄ : Sp := .pipe (.pipe (.builtin .int) .noneLit) (.builtin .str)
+    let s₅ : Sp := .pipe (.builtin .int) (.pipe .noneLit (.builtin .str))
+    let s₆ : Sp := .pipe (.optional (.builtin .int)) (.builtin .str)
+    let s₇ : Sp := .pipe (.typingG .list (.builtin .int)) .noneLit
+    isUnionTree s₄ = true ∧ leavesOk tm s₄ = true ∧ allDistinct (flatObjs tm s₄) = true
+    ∧ isUnionTree s₅ = true ∧ leavesOk tm s₅ = true ∧ allDistinct (flatObjs tm s₅) = true
+    ∧ isUnionTree s₆ = true ∧ leavesOk tm s₆ = true ∧ allDistinct (flatObjs tm s₆) = true
+    ∧ isUnionTree s₇ = true ∧ leavesOk tm s₇ = true ∧ allDistinct (flatObjs tm s₇) = true
+    ∧ supported tm s₆ = false ∧ supported tm s₇ = false
+    ∧ flatAlts s₄ = flatAlts s₁ ∧ flatAlts s₅ = flatAlts s₁ ∧ flatAlts s₆ = flatAlts s₁
+    ∧ elabField noRe tm true (annF s₄) = elabField noRe tm false (annF s₁)
+    ∧ elabField noRe tm true (annF s₅) = elabField noRe tm false (annF s₁)
+    ∧ elabField noRe tm true (annF s₆) = elabField noRe tm false (annF s₁)
+    ∧ elabField noRe tm true (annF s₇) = .ok (.field (.anyOf [.seqOf .list (.integer {}) {}, .noneF]) false none)
+    ∧
     isUnionTree s₁ = true ∧ leavesOk tm s₁ = true ∧ allDistinct (flatObjs tm s₁) = true
     ∧ isUnionTree s₂ = true ∧ leavesOk tm s₂ = true ∧ allDistinct (flatObjs tm s₂) = true
     ∧ leavesOk tm s₃ = true ∧ allDistinct (flatObjs tm s₃) = true
@@ -540,7 +560,8 @@ theorem flatten_example :
     ∧ elabField noRe tm false (annF s₁) = .ok (.field (.anyOf [.integer {}, .noneF, .string none none none]) false none)
     ∧ elabField noRe tm true (annF s₂) = elabField noRe tm false (annF s₁)
     ∧ elabField noRe tm true (annF s₃) = elabField noRe tm false (annF s₁) :=
-  ⟨rfl, rfl, rfl, rfl, rfl, rfl, rfl, rfl, rfl, rfl, rfl, rfl, rfl, rfl⟩
+  ⟨rfl, rfl, rfl, rfl, rfl, rfl, rfl, rfl, rfl, rfl, rfl, rfl, rfl, rfl, rfl, rfl, rfl, rfl, rfl, rfl, rfl,
+   rfl, rfl, rfl, rfl, rfl, rfl, rfl, rfl, rfl, rfl, rfl, rfl, rfl, rfl⟩
 
 /-- typing's de-duplication ("redundant arguments are skipped"): for a supported spelling `x` that is not a Field
     INSTANCE and not itself a union, `Union[x, x]` IS `x` - the annotation elaborates to the single field, not to an
@@ -646,33 +667,37 @@ theorem tuple_pair_equiv :
   ⟨SameMeaning.tup .pep585 .call (SameMeaning.scalar .builtin .cls .int) (SameMeaning.scalar .builtin .cls .str),
    rfl, rfl, rfl, rfl, rfl, rfl, rfl, rfl, rfl, rfl, rfl, rfl, rfl, rfl⟩
 
-/-- finding `definition-error:tuple-items-structure-class` — `Tuple.__init__` converts Field classes and instances
-    only: `a: Tuple(items=Owner)` and `a: Tuple(items=[Integer, Owner])` raise TypeError at class definition, the
-    equivalent `Tuple[Owner]`, `tuple[Owner]`, `Tuple[Integer, Owner]` declare the field (and `Array(items=Owner)` works). -/
-theorem counterexample_tuple_items_struct :
+/-- former finding `definition-error:tuple-items-structure-class` (fixed in typedpy cdab473) — `Tuple(items=Owner)` and
+    `Tuple(items=[Integer, Owner])` used to raise TypeError (Tuple.__init__ converted Field classes and instances only);
+    they now declare the same field as `Tuple[Owner]`, `tuple[Owner]`, `Tuple[Integer, Owner]`, inside the proved region. -/
+theorem fixed_tuple_items_struct :
     SameMeaning (.sub .tuple owner) (.call .tuple owner)
     ∧ SameMeaning (.tupSub fInt owner) (.tupCall fInt owner)
-    ∧ documentedField (annF (.call .tuple owner)) = true ∧ documentedField (annF (.tupCall fInt owner)) = true
+    ∧ fieldSupported noRe tm false (annF (.call .tuple owner)) = true
+    ∧ fieldSupported noRe tm false (annF (.tupCall fInt owner)) = true
     ∧ elabField noRe tm false (annF (.sub .tuple owner)) = .ok (.field (.tupleOf ownerD false) true none)
     ∧ elabField noRe tm false (annF (.pep585 .tuple owner)) = .ok (.field (.tupleOf ownerD false) true none)
-    ∧ elabField noRe tm false (annF (.call .tuple owner)) = .error .typeErr
+    ∧ elabField noRe tm false (annF (.call .tuple owner)) = .ok (.field (.tupleOf ownerD false) true none)
     ∧ elabField noRe tm false (annF (.tupSub fInt owner)) = .ok (.field (.tuplePos [.integer {}, ownerD] false) true none)
-    ∧ elabField noRe tm false (annF (.tupCall fInt owner)) = .error .typeErr
+    ∧ elabField noRe tm false (annF (.tupCall fInt owner)) = .ok (.field (.tuplePos [.integer {}, ownerD] false) true none)
     ∧ elabField noRe tm false (annF (.call .list owner)) = .ok (.field (.seqOf .list ownerD {}) true none) :=
   ⟨SameMeaning.coll .sub .call .tuple (SameMeaning.scls ownerD 5 5),
    SameMeaning.tup .sub .call (SameMeaning.scalar .cls .cls .int) (SameMeaning.scls ownerD 5 5),
    rfl, rfl, rfl, rfl, rfl, rfl, rfl, rfl⟩
 
-/-- finding `definition-error:pep604-structure-first-nested` — a PEP 604 union whose FIRST member is a Structure class,
-    used as an argument of a typedpy field (`Array[Owner | None]`, `AnyOf[Owner | int, String]`, `Map[String, Owner | None]`),
-    makes `FieldMeta.__getitem__` recurse forever (RecursionError at class definition); the same union as an annotation
-    (`a: Owner | None`), inside a builtin generic (`list[Owner | None]`) or written `Optional[Owner]` works. -/
-theorem counterexample_struct_first_nested :
+/-- former finding `definition-error:pep604-structure-first-nested` (fixed in typedpy 4d54fb6) — a PEP 604 union whose
+    FIRST member is a Structure class, used as an argument of a typedpy field (`Array[Owner | None]`,
+    `AnyOf[Owner | int, String]`, `Map[String, Owner | None]`), used to raise RecursionError at class definition; it now
+    declares the same field as `Array[Optional[Owner]]` / `list[Owner | None]`, and lies in the proved region. -/
+theorem fixed_struct_first_nested :
     SameMeaning (.sub .list (.pipe owner .noneLit)) (.sub .list (.optional owner))
-    ∧ documentedField (annF (.sub .list (.pipe owner .noneLit))) = true
-    ∧ elabField noRe tm false (annF (.sub .list (.pipe owner .noneLit))) = .error (.other "RecursionError")
-    ∧ elabField noRe tm false (annF (.anyOf (.pipe owner (.builtin .int)) fStr)) = .error (.other "RecursionError")
-    ∧ elabField noRe tm false (annF (.mapSub fStr (.pipe owner .noneLit))) = .error (.other "RecursionError")
+    ∧ fieldSupported noRe tm false (annF (.sub .list (.pipe owner .noneLit))) = true
+    ∧ elabField noRe tm false (annF (.sub .list (.pipe owner .noneLit)))
+        = .ok (.field (.seqOf .list (.anyOf [ownerD, .noneF]) {}) true none)
+    ∧ elabField noRe tm false (annF (.anyOf (.pipe owner (.builtin .int)) fStr))
+        = .ok (.field (.anyOf [.anyOf [ownerD, .integer {}], .string none none none]) true none)
+    ∧ elabField noRe tm false (annF (.mapSub fStr (.pipe owner .noneLit)))
+        = .ok (.field (.mapOf (.string none none none) (.anyOf [ownerD, .noneF]) {}) true none)
     ∧ elabField noRe tm false (annF (.sub .list (.optional owner)))
         = .ok (.field (.seqOf .list (.anyOf [ownerD, .noneF]) {}) true none)
     ∧ elabField noRe tm false (annF (.pep585 .list (.pipe owner .noneLit)))
